@@ -219,14 +219,22 @@ func racing(hostKind string, kinds []string, scripts [][]int, mode string) func(
 			dump()
 			return
 		}
-		// once the activity is gone, further events change nothing
+		// once the activity is gone, further events change nothing. After a normal completion
+		// that is every boundary event; after an interruption only the interrupting events that
+		// fired are delivered again ("exactly once"): the statement is silent about the other
+		// boundary events of an interrupted activity.
 		before := len(r.Tasks)
-		for i := range kinds {
+		again := 0
+		for i, k := range kinds {
+			if interrupts > 0 && !(k == "I" && r.Requests(fmt.Sprintf("tx%d", i+1)) > 0) {
+				continue
+			}
+			again++
 			go send(i)
 		}
 		verifrt.WaitIdle()
-		if returned != len(script)+len(kinds) {
-			fail("/calls-return", "ConsumeEvent after the activity has ended has not returned (%d of %d)", returned, len(script)+len(kinds))
+		if returned != len(script)+again {
+			fail("/calls-return", "ConsumeEvent after the activity has ended has not returned (%d of %d)", returned, len(script)+again)
 			return
 		}
 		if len(r.Tasks) != before {
